@@ -137,7 +137,7 @@ func c06histBody(depth int) func() {
 		policy := []service.LoadBalancePolicy{service.LoadBalancePolicy_ROUND_ROBIN, service.LoadBalancePolicy_RANDOM, service.LoadBalancePolicy_LEAST_CONNECTION}[sched.Choose(sched.ClsInput, 3, "policy")]
 		w := c06setup(policy, []string{"a", "b", "c"})
 		var hist []string
-		ops := []string{"add a", "add b", "add c", "remove a", "remove b", "remove c", "remove-as-other-type a", "replace {a}", "replace {b,c}", "replace {a,b,c}", "remove a,b", "remove b,a", "unhealthy a", "unhealthy b", "unhealthy c", "healthy a", "healthy b", "connect", "disconnect", "late-unhealthy a", "late-healthy a"}
+		ops := []string{"add a", "add b", "add c", "remove a", "remove b", "remove c", "remove-as-other-type a", "replace {a}", "replace {b,c}", "replace {a,b,c}", "remove a,b", "remove b,a", "unhealthy a", "unhealthy b", "unhealthy c", "healthy a", "healthy b", "connect", "disconnect", "late-unhealthy a", "late-healthy a", "re-add a", "connect-first-dial-fails"}
 		// the host object a health check started on at the beginning; its late results must not count once the
 		// address was removed or re-added as a fresh object
 		origA := w.stored("a")
@@ -150,6 +150,49 @@ func c06histBody(depth int) func() {
 				if !w.members[f[1]] {
 					w.p.OnSvcHostAdd([]*host.Host{host.NewWithType(c06addrs[f[1]], c06types[f[1]])})
 					w.members[f[1]], w.healthy[f[1]] = true, true
+				}
+			case "re-add":
+				// the registry announces a member again: the controller hands over a fresh object for the address
+				if w.members[f[1]] {
+					w.p.OnSvcHostAdd([]*host.Host{host.NewWithType(c06addrs[f[1]], c06types[f[1]])})
+					w.healthy[f[1]] = true
+				}
+			case "connect-first-dial-fails":
+				// the first connect attempt of this connection is refused and, while it is pending, another usable
+				// host is marked unhealthy: whatever the proxy does next, it must not relay to a host that is not
+				// usable any more
+				us := w.usable()
+				if len(us) < 2 {
+					break
+				}
+				failed := false
+				var marked string
+				vnet.SetDialHook(func(addr string) error {
+					if failed {
+						return nil
+					}
+					failed = true
+					for _, n := range us {
+						if c06addrs[n] != addr {
+							marked = n
+							w.p.hostSet.MarkHostUnhealthy(w.stored(n))
+							w.healthy[n] = false
+							break
+						}
+					}
+					return vnet.ErrRefused
+				})
+				c := w.connect()
+				vnet.SetDialHook(nil)
+				w.conns = append(w.conns, c)
+				if c.backend != "" {
+					ok := false
+					for _, u := range w.usable() {
+						ok = ok || u == c.backend
+					}
+					if !ok {
+						sched.Fail("connection-relayed-to-unhealthy-host / after a refused first connect", fmt.Sprintf("%s history %v: %s was marked unhealthy while the first connect was pending, the connection was then relayed to %s", policy, hist, marked, c.backend))
+					}
 				}
 			case "remove-as-other-type":
 				// the registry announces the removal with a descriptor whose type differs from the stored host's
